@@ -100,6 +100,14 @@ def finish(report, tier, seed, t0):
 
     rdir = os.path.join(VERIF, 'replays', pid)
     lines = []
+    bykey = {}
+    for ob in violations:
+        bykey.setdefault(ob.key or ob.name, []).append(ob)
+    if len(bykey) < len(violations):
+        print('%d violating obligations in %d classes:' % (len(violations), len(bykey)))
+        for k, obs in sorted(bykey.items()):
+            print('  class %s: %d obligation(s), e.g. %s' % (k, len(obs), obs[0].name))
+    violations = [obs[0] for k, obs in sorted(bykey.items())]
     for i, ob in enumerate(violations):
         os.makedirs(rdir, exist_ok=True)
         path = os.path.join(rdir, 'violation_%02d.py' % i)
@@ -147,7 +155,7 @@ def finish(report, tier, seed, t0):
     ev = {
         'property_id': pid, 'tier': tier, 'seed': seed, 'level': report.level,
         'coverage': cov, 'assumptions': report.assumptions,
-        'wall_s': round(time.time() - t0, 2), 'violations': len(violations),
+        'wall_s': round(time.time() - t0, 2), 'violations': sum(len(v) for v in bykey.values()),
     }
     os.makedirs(os.path.join(VERIF, 'evidence'), exist_ok=True)
     with open(os.path.join(VERIF, 'evidence', pid + '.json'), 'w') as f:
